@@ -84,6 +84,9 @@ def gen(S, tier):
             outcome = ["raise", "KeyboardInterrupt"]
         elif f.chance(0.03):
             outcome = ["raise", "RecursionError-real"]
+        elif f.chance(0.06):
+            outcome = ["raise", {"type": "FromWrite", "msg": f.pick(["<error>b</info>", "mis <info>nested</comment> tags", "x <b><info>y</b> z</info>"]),
+                                 "stream": f.pick(["out", "err"]), "cause": None, "context": None}]
         else:
             outcome = ["raise", srcgen.gen_exc_spec(f)]
     else:
